@@ -10,6 +10,8 @@ CONSTANTS
   FixNonRequest = FALSE
   FixLongWs = TRUE
   FarChoices = {FALSE}
+  HasValidator = TRUE
+  NilPointerSkipsValidation = TRUE
 INIT Init
 NEXT Next
 VIEW view
